@@ -156,6 +156,8 @@ def rerun(ids):
             verdict = 'caught' if any(r['exit'] == 1 for r in res.values()) else 'MISSED'
             if verdict == 'MISSED' and meta.get('expected_miss'):
                 verdict = 'missed-as-documented'
+            if verdict == 'MISSED' and meta.get('obsolete'):
+                verdict = 'obsolete'  # a later fix: commit made the patch a no-op (its demo passes with the patch applied)
             return sid, verdict, res
         finally:
             drop_tree(d)
@@ -165,7 +167,7 @@ def rerun(ids):
         for sid, verdict, res in ex.map(one, ids):
             print(sid, verdict, {p: (r['exit'], r['signatures'][:3]) for p, r in res.items()})
             sys.stdout.flush()
-            if verdict not in ('caught', 'missed-as-documented'):
+            if verdict not in ('caught', 'missed-as-documented', 'obsolete'):
                 missed += 1
             mp = os.path.join(root, sid, 'meta.json')
             meta = json.load(open(mp))
